@@ -660,6 +660,7 @@ def check(ctx, R):
         "files clock .. clock + len under id.client; IdMapInner::{merge, diff, intersect} are a clone followed by the in-place form "
         "with the same other operand; contains looks the id's clock up in the ranges of the id's client"), ctx)
     R.run("C16.k", rule_k, ctx)
+    R.run("C16.q", rule_q, ctx)
     R.run("C16.a", rule_a, ctx)
     R.run("C16.b", rule_b, ctx)
     R.run("C16.c", rule_c, ctx)
@@ -674,3 +675,29 @@ def check(ctx, R):
     from . import preds
     R.run("C16.p", lambda R, c: preds.rule(R, c, "C16.p", ["idmap_contains", "blockrange_contains"]), ctx)
     return {}
+
+
+HASHSET_READERS = ("get", "contains", "len", "is_empty", "iter")
+
+
+def rule_q(R, ctx, rid="C16.q"):
+    """Interning of attributes: a cached handle is never displaced."""
+    Y = ctx.yrs
+    R.rule(rid, "R-GUARD IdMap::ensure_attrs — the interning step of insert / from_set, which the encoder's by-handle de-duplication relies "
+                "on — writes its cache (any HashSet method on self.attrs other than a read) only where HashSet::get(self.attrs, a) "
+                "answered None, and it does look the attribute up: replacing the cached handle on every call makes equal maps encode "
+                "differently depending on how their attributes were allocated")
+    fn = Y.fn("yrs::id_map::IdMap::ensure_attrs")
+    v = FnView(fn)
+    gets = [c for c in fn.calls() if re.search(r"HashSet::get$", F.strip_generics(c.name)) and sshow(simp_deep(v.arg(c, 0, 8)), 6) == "self.attrs"]
+    R.floor(rid, "lookups of the cache in ensure_attrs", len(gets), 1)
+    n = 0
+    for c in fn.calls():
+        m = re.search(r"HashSet::(\w+)$", F.strip_generics(c.name))
+        if not m or m.group(1) in HASHSET_READERS or not c.args or sshow(simp_deep(v.arg(c, 0, 8)), 6) != "self.attrs":
+            continue
+        n += 1
+        ok = v.has_guard(c.bb, lambda l: isinstance(l.term, tuple) and term_has_call(l.term, "re:HashSet::get$") and l.polarity == "None")
+        R.ob(rid, fn, "cache-write:" + m.group(1), ok, "only after the lookup answered None" if ok else
+             "HashSet::%s on the cache is not under `get(..) is None`: a cached handle can be displaced" % m.group(1), c.loc())
+    R.floor(rid, "writes of the cache in ensure_attrs", n, 1)
